@@ -185,6 +185,8 @@ abbrev M := StateT S (Except Fault)
 def fault {α} (f : Fault) : M α := throw f
 
 def numChannels (s : S) : Nat := s.numChips * 6
+/-- OPN2::m_numChannels as the loops see it: the number of chip channels that exist (it follows m_numChips only at the next chip reset) -/
+def liveChannels (s : S) : Nat := s.chip.length
 
 /-! ## accessors (faulting like the C++ array accesses would) -/
 
@@ -452,7 +454,7 @@ def goodness (s : S) (c : Nat) (ins : Timbre) : Except Fault Int :=
 /-- killSustainingNotes (with the held-key handling) -/
 def killSustainingNotes (midCh : Option Nat) (thisChan : Option Nat) (susType : Nat) : M Unit := do
   let s ← get
-  let chans := match thisChan with | some c => [c] | none => List.range (numChannels s)
+  let chans := match thisChan with | some c => [c] | none => List.range (liveChannels s)
   for c in chans do
     let cc0 ← getChip c
     if !cc0.users.isEmpty then
@@ -488,7 +490,7 @@ def killSustainingNotes (midCh : Option Nat) (thisChan : Option Nat) (susType : 
 /-- markSostenutoNotes -/
 def markSostenutoNotes (midCh : Nat) : M Unit := do
   let s ← get
-  for c in List.range (numChannels s) do
+  for c in List.range (liveChannels s) do
     let cc ← getChip c
     setChip c { cc with users := cc.users.map fun u => if u.midCh == midCh && u.sus == 0 then { u with sus := u.sus ||| 2 } else u }
 
@@ -501,7 +503,7 @@ def killOrEvacuate (fromChan : Nat) (jd : User) : M Unit := do
   | some _ =>
   let mut target : Option Nat := none
   if s.setup.autoArpeggio then
-    for c in List.range (numChannels s) do
+    for c in List.range (liveChannels s) do
       if target.isNone && c < 600 && c != fromChan then
         let adl ← getChip c
         if adl.users.length != 128 && !(adl.users.any (·.isLoc jd.midCh jd.key)) then
@@ -654,7 +656,7 @@ def realTimeNoteOn (channel0 note0 velocity0 : Nat) : M Bool := do
   let sNow ← get
   let mut best : Option Nat := none
   let mut bs : Int := -2147483647
-  for a in List.range (numChannels sNow) do
+  for a in List.range (liveChannels sNow) do
     let sc ← match goodness sNow a ains.op with
       | .ok x => pure x
       | .error f => fault f
@@ -907,7 +909,7 @@ def updateArpeggio : M Unit := do
     return
   modify fun s => { s with arpCounter := s.arpCounter + 1 }
   let counter := s.arpCounter + 1
-  for c in List.range (numChannels s) do
+  for c in List.range (liveChannels s) do
     let mut fuel := 200
     let mut again := true
     while again do
@@ -934,7 +936,7 @@ def updateArpeggio : M Unit := do
 def tickIterators (sec : Rat) : M Unit := do
   let s ← get
   let us : Int := (sec * 1000000).floor       -- static_cast<int64_t>(s * 1e6), s ≥ 0
-  for c in List.range (numChannels s) do
+  for c in List.range (liveChannels s) do
     let cc ← getChip c
     setChip c (addAge cc us)
   for c in List.range s.midi.length do
